@@ -524,8 +524,14 @@ func (p *Prog) spliceable(f *Func, ev *Event) bool {
 		}
 		// a block of a sibling literal moved into a local function value that is called exactly once: both
 		// literals capture the same variables of the enclosing function
-		if f.Parent == g.Parent && p.localBlock(g) {
-			return true
+		for a := f; a != nil && a.Lit != nil; a = a.Parent {
+			// f is a sibling of g, or a literal nested inside a sibling (it sees the same captured variables)
+			if a.Parent == g.Parent && a != g {
+				if p.localBlock(g) {
+					return true
+				}
+				break
+			}
 		}
 	}
 	return false
@@ -594,16 +600,13 @@ func (p *Prog) localBlock(g *Func) bool {
 			}
 			return true
 		})
-		// the call is in the body of a sibling literal (directly, not in a literal nested deeper)
+		// the call is in the body of a sibling literal (or of a literal nested in one)
 		sibling := false
 		for _, h := range p.Funcs {
 			if h.Lit == nil || h.Parent != g.Parent || h == g {
 				continue
 			}
 			ast.Inspect(h.Body, func(n ast.Node) bool {
-				if _, ok := n.(*ast.FuncLit); ok {
-					return false
-				}
 				if id, ok := n.(*ast.Ident); ok && callFun[id] && info.Uses[id] == types.Object(bound) {
 					sibling = true
 				}
